@@ -81,14 +81,15 @@ def model_value(kind, value):
 
 
 def bases():
-    out = [("str", "x"), ("str", "xy\n"), ("str", "")]
+    # plain text, and plain str that carries SGR sequences (the str() of a FmtStr, coloured program output)
+    out = [("str", "x"), ("str", "xy\n"), ("str", ""), ("ansi", "\x1b[31mER\x1b[39m: d"), ("ansi", "\x1b[1ma\x1b[0mb"), ("ansi", "p\x1b[44m\x1b[4mq\x1b[0m\x1b[49mr")]
     out += [("fmt", s) for s in C.layouts(2, 2)]
     return out
 
 
 def make_base(b, warm=False):
     """warm: render / measure the base first, so that every memo of the operand is filled before formatting is applied."""
-    if b[0] == "str":
+    if b[0] in ("str", "ansi"):
         return b[1]
     f = C.build(b[1])
     if warm:
@@ -105,7 +106,14 @@ def displayed(r):
 
 
 def show_base(b):
-    return b[1] if b[0] == "str" else C.show_spec(b[1])
+    return b[1] if b[0] in ("str", "ansi") else C.show_spec(b[1])
+
+
+def base_cells(b, base):
+    """Cells of a base: for a str that carries SGR sequences, what a terminal displays (independent interpreter)."""
+    if b[0] == "ansi":
+        return sgr.interpret(b[1])[0]
+    return C.cells(base)
 
 
 ALL_ATTS = [("fg", c) for c in C.COLORS] + [("bg", c) for c in C.COLORS] + [(s, v) for s in C.STYLE_NAMES for v in (True, False)]
@@ -117,10 +125,10 @@ def shard_single(args):
     bs = bases()
     for bi, warm in itertools.product(range(idx, len(bs), 16), (False, True)):
         b = bs[bi]
-        if warm and b[0] == "str":
+        if warm and b[0] in ("str", "ansi"):
             continue
         base = make_base(b, warm)
-        bc = C.cells(base)
+        bc = base_cells(b, base)
         for kind, value in ALL_ATTS:
             want = apply_model(bc, {kind: model_value(kind, value)})
             ref_str = None
@@ -163,12 +171,12 @@ def shard_multi(args):
     acc = Acc(seed=seed)
     bs = bases()
     if tier != "thorough":
-        bs = bs[:3] + bs[3::3]
+        bs = bs[:6] + bs[6::3]
     combos = list(itertools.combinations(KINDS, 2)) + list(itertools.combinations(KINDS, 3))
     for ci in range(idx, len(combos), 16):
         kinds = combos[ci]
         if len(kinds) == 3 and tier != "thorough":
-            use_bases = bs[:3] + bs[3::5]
+            use_bases = bs[:6] + bs[6::5]
         else:
             use_bases = bs
         for values in itertools.product(*[kind_values(k) for k in kinds]):
@@ -185,7 +193,7 @@ def shard_multi(args):
                 for b in use_bases:
                     warm = (len(pos) + len(str(b))) % 2 == 1
                     base = make_base(b, warm)
-                    bc = C.cells(base)
+                    bc = base_cells(b, base)
                     want = apply_model(bc, spec)
                     case = {"base": show_base(b), "atts": [list(kinds), list(values)], "positional": pos, "kw": kw, "how": "one call", "base_rendered_first": warm}
                     acc.case(bool(bc), key=("m", b, kinds, values, spell), sample=case)
@@ -205,7 +213,7 @@ def shard_multi(args):
             for order in itertools.permutations(range(len(kinds))):
                 for b in use_bases:
                     base = make_base(b)
-                    bc = C.cells(base)
+                    bc = base_cells(b, base)
                     want = apply_model(bc, spec)
                     case = {"base": show_base(b), "atts": [list(kinds), list(values)], "how": "nested", "order": list(order)}
                     acc.case(bool(bc), key=("n", b, kinds, values, order), sample=case)
@@ -229,7 +237,7 @@ def shard_multi(args):
             for v1, v2 in itertools.permutations(kind_values(k0), 2):
                 for b in use_bases[:8]:
                     base = make_base(b)
-                    bc = C.cells(base)
+                    bc = base_cells(b, base)
                     want = apply_model(bc, {k0: model_value(k0, v2)})
                     case = {"base": show_base(b), "att": k0, "first": v1, "then": v2, "how": "override"}
                     acc.case(bool(bc), key=("o", b, k0, v1, v2, kinds), sample=case)
@@ -280,6 +288,18 @@ def shard_remove(args):
             except Exception as ex:  # noqa
                 acc.failure("C14:shared_atts_raises:" + type(ex).__name__, case, repr(ex))
                 sh = {}
+            # the returned mapping is the caller's: changing it must not change what the value reports afterwards
+            try:
+                before_items = sorted(sh.items())
+                sh["bold"] = True
+                sh["fg"] = 35
+                sh.pop("bg", None)
+                again = f.shared_atts
+                if sorted(again.items()) != before_items:
+                    acc.failure("C14:shared_atts_result_is_shared_state", case, "after the caller edited the returned dict shared_atts reports %r, before %r" % (sorted(again.items()), before_items))
+                sh = dict(before_items)
+            except Exception as ex:  # noqa
+                acc.failure("C14:shared_atts_raises:" + type(ex).__name__, case, repr(ex))
             for k, v in sh.items():
                 if v is False:
                     continue
